@@ -43,7 +43,7 @@ func rulesC18(c *Ctx) {
 	nPrim := 0
 	for _, s := range sites {
 		fn := s.Fn
-		key := s.Op + " in " + fn.Name
+		key := s.Op + " in " + p.keyOwner(fn).Name
 		st := p.StateAt(fn, s.Node)
 		if quantityPrimitives[fn.Name] {
 			nPrim++
